@@ -50,6 +50,13 @@ def _roundtrip(kind, cls, attr, obj, model):
     return variants, arches
 
 
+def _attempt(fn, *args):
+    try:
+        fn(*args)
+    except Exception:  # noqa
+        pass
+
+
 def rpms_case(case):
     from productmd.rpms import Rpms
     obj, model = Rpms(), {}
@@ -59,6 +66,9 @@ def rpms_case(case):
         if mf.rpm_model_apply(trial, op):
             must("add-valid", mf.rpm_call, obj, op)
             model = trial
+        else:
+            # an add the library refuses (C12 checks that it does) leaves no trace in what is written and read back
+            _attempt(mf.rpm_call, obj, op)
     variants, arches = _roundtrip("rpms", Rpms, "rpms", obj, model)
     multi = any(len(pk) >= 2 for v in model.values() for a in v.values() for pk in a.values())
     epochs = any(not key.split(":")[0].endswith("-0") for v in model.values() for a in v.values() for pk in a.values() for key in pk)
@@ -76,6 +86,9 @@ def modules_case(case):
         if mf.module_model_apply(trial, op, case["lists"]):
             must("add-valid", caller.call, obj, op)
             model = trial
+        else:
+            # an add the library refuses (C12 checks that it does) leaves no trace in what is written and read back
+            _attempt(caller.call, obj, op)
     variants, arches = _roundtrip("modules", Modules, "modules", obj, model)
     cats = any(len(e["modulemd_path"]) >= 2 for v in model.values() for a in v.values() for e in a.values())
     dup = any(len(set(e["rpms"])) < len(e["rpms"]) for v in model.values() for a in v.values() for e in a.values())
@@ -92,15 +105,18 @@ def extra_case(case):
         if mf.extra_model_apply(trial, op):
             must("add-valid", mf.extra_call, obj, op)
             model = trial
+        else:
+            # an add the library refuses (C12 checks that it does) leaves no trace in what is written and read back
+            _attempt(mf.extra_call, obj, op)
     variants, arches = _roundtrip("extra_files", ExtraFiles, "extra_files", obj, model)
     multi = any(len(e["checksums"]) >= 2 for v in model.values() for a in v.values() for e in a)
     return {"nontrivial": variants >= 2 or arches >= 2 or multi, "labels": ["multi-checksum"] if multi else []}
 
 
 def run(ctx):
-    ctx.forall("rpms", mf.rpm_history(allow_breaks=False), rpms_case, ctx.n(1000, 48000))
-    ctx.forall("modules", mf.module_history(allow_breaks=False), modules_case, ctx.n(1000, 48000))
-    ctx.forall("extra-files", mf.extra_history(allow_breaks=False), extra_case, ctx.n(800, 32000))
+    ctx.forall("rpms", mf.rpm_history(), rpms_case, ctx.n(1000, 48000))
+    ctx.forall("modules", mf.module_history(), modules_case, ctx.n(1000, 48000))
+    ctx.forall("extra-files", mf.extra_history(), extra_case, ctx.n(800, 32000))
 
 
 REPLAY = {"rpms": rpms_case, "modules": modules_case, "extra-files": extra_case}
